@@ -335,5 +335,6 @@ registry.register("C13", {
     ],
     "trusted_base": ["no axioms: Print Assumptions reports 'Closed under the global context' for every C13 theorem",
                      "hook /repo/quic/s2n-quic-transport/src/verif_hooks/cids.rs (recording WriteContext parses the written wire image by hand)"],
+    "not_proved": "closed judge_run for lcid: the unconditional statement is false of the faithful model (C13_rpt_le_seq_refuted); the version under one constant lifetime is not proved (its ingredients are: C13_routed, C13_issued_within_limit, C13_seq_consecutive_distinct, C13_frames_are_registered, C13_rpt_le_seq_constant_lifetime); pcid has the closed C13_pcid_judge_model",
     "explanation": "Coq theorems C13_* over the models of local_id_registry.rs / peer_id_registry.rs / the mapper's maps for all operation sequences; models tied to the source by generated constants and differential execution; judgement recomputed from the ops alone",
 })
